@@ -766,6 +766,8 @@ def c14(out):
                  "starts incl. >=64 items with repeats: ids equal iff items equal within and across sides, ranges kept "
                  "(TextA!IdentifyViol); non-trivial = a side has > 100 tokens and the diff has a change, resp. an item repeated across "
                  "sides", sample_keys=("ev", "alg", "kind", "mode", "ntok_old", "ntok_new", "text_ops", "int", "old_ids", "new_ids"))
+    p2(out, "MCIdentify.tla", ["MCIdentify" + ("_t" if out.tier == "thorough" else "")], coverage=False)
+    finish_counts(out)
 
 
 @prop("C17")
@@ -797,6 +799,9 @@ def c20(out):
                  "really preserves the equality and order pattern (TextA!DetermViol); plus str vs same bytes ops for line/word/char "
                  "tokenizers; non-trivial = >=2 common unique items (Patience) / both sides longer than 1",
                  sample_keys=("alg", "old", "new", "variants", "runs"))
+    # the Patience model draws the collection order of unique()'s HashMap nondeterministically
+    p2(out, "MCAlgs.tla", alg_cfgs(out, ["patience"]))
+    finish_counts(out)
 
 
 @prop("C18")
@@ -810,6 +815,8 @@ def c18(out):
                  "of the ranking by (ratio desc, lexicographic) among candidates with ratio >= cutoff (CloseMatchesA.tla, integer "
                  "cross-multiplication); non-trivial = >=2 results, or >=1 under a positive cutoff",
                  sample_keys=("word", "cands", "n", "p", "q", "result"))
+    p2(out, "MCClose.tla", ["MCClose" + ("_t" if out.tier == "thorough" else "")], coverage=False)
+    finish_counts(out)
 
 
 @prop("C16")
@@ -916,14 +923,17 @@ def setup():
     # warm the model-checking / behaviour-dump caches (they do not depend on /repo)
     from concurrent.futures import ThreadPoolExecutor
     jobs = [("mc", "MCAlgs.tla", f"MCAlg_{a}{sfx}") for a in ("myers", "lcs", "patience") for sfx in ("_q", "_faults")]
-    jobs += [("mc", "MCCompact.tla", "MCCompact"), ("mc", "MCCompact.tla", "MCCompactRepair")]
+    jobs += [("mc", "MCCompact.tla", "MCCompact"), ("mc", "MCCompact.tla", "MCCompactRepair"),
+             ("mc", "MCGroup.tla", "MCGroup"), ("mc", "MCIter.tla", "MCIter"), ("mc", "MCTokens.tla", "MCTokens"),
+             ("mcn", "MCUdiff.tla", "MCUdiff"), ("mcn", "MCUdiff.tla", "MCUdiffRepair"),
+             ("mcn", "MCIdentify.tla", "MCIdentify"), ("mcn", "MCClose.tla", "MCClose")]
     jobs += [("dump", "MCAlgs.tla", f"MCAlg_{a}{sfx}") for a in ("myers", "lcs", "patience") for sfx in ("_dump0", "_dump")]
-    jobs += [("dump", "MCCompact.tla", "MCCompactDump")]
+    jobs += [("dump", "MCCompact.tla", "MCCompactDump"), ("dump", "MCGroup.tla", "MCGroupDump")]
 
     def run(j):
         kind, spec, cfg = j
-        if kind == "mc":
-            st = core.tlc_mc_cached(MC / spec, MC / (cfg + ".cfg"), "setup_" + cfg, workers=4)
+        if kind in ("mc", "mcn"):
+            st = core.tlc_mc_cached(MC / spec, MC / (cfg + ".cfg"), "setup_" + cfg, workers=4, coverage=kind == "mc")
             return cfg, st["ok"]
         core.tlc_dump(MC / spec, MC / (cfg + ".cfg"), "setup_" + cfg, workers=2)
         return cfg, True
